@@ -102,5 +102,6 @@ def gen(tier, rng):
     yield nodegen.c10_script(r, "node-hub", 3, "hub", "tap", 40 if thorough else 20)
     yield nodegen.c10_script(r, "node-router-tap", 3, "router", "tap", 40 if thorough else 20)
     yield nodegen.switch_timeout_script(r, "node-switch-timeout", pt=20, st=10)
+    yield nodegen.close_script(r, "node-close-switch", mode="switch", dev="tap")       # "or P disconnects": learned addresses of a peer that said goodbye
 
 obs_class, nontrivial_key = _nodecommon.with_node(obs_class, nontrivial_key)
